@@ -5,6 +5,8 @@ cd "$(dirname "$0")/.."
 export GOFLAGS=-mod=mod GOPROXY=off GOSUMDB=off GOTOOLCHAIN=local
 mkdir -p .build .work evidence replays
 cp /repo/go.sum go.sum
-go build -tags verif -o .build/vcheck ./cmd/vcheck
-go build -race -tags verif -o .build/vcheck-race ./cmd/vcheck
+for m in vcprops vc07 vc11 vc13 vc14 vc16 vc17 vc19 vc20; do
+  go build -tags verif -o .build/$m ./cmd/$m
+done
+go build -race -tags verif -o .build/vcheck-race ./cmd/vcprops
 echo setup ok
